@@ -155,11 +155,90 @@ func guardedNonNil(pk *packages.Package, cf *funcCFG, fnBody *ast.BlockStmt, sit
 			}
 		}
 		if !insideLit {
+			storesPath := func(n ast.Node) bool {
+				killed := false
+				ast.Inspect(n, func(m ast.Node) bool {
+					switch x := m.(type) {
+					case *ast.FuncLit:
+						return false
+					case *ast.AssignStmt:
+						for _, l := range x.Lhs {
+							if lp := accessPath(pk, l); lp != "" && (lp == path || strings.HasPrefix(path, lp+".")) {
+								killed = true
+							}
+						}
+					}
+					return true
+				})
+				return killed
+			}
+			// a nil test of a local that was just loaded from the path (`x := path; if x == nil {...}`) is a nil test of
+			// the path, as long as the path is not stored to between the load and the test
+			aliasNilCmp := func(cond ast.Expr, op token.Token) bool {
+				be, ok := ast.Unparen(cond).(*ast.BinaryExpr)
+				if !ok || be.Op != op {
+					return false
+				}
+				var side ast.Expr
+				switch {
+				case isNil(pk, be.Y):
+					side = be.X
+				case isNil(pk, be.X):
+					side = be.Y
+				default:
+					return false
+				}
+				id, ok := ast.Unparen(side).(*ast.Ident)
+				if !ok {
+					return false
+				}
+				obj, _ := pk.TypesInfo.Uses[id].(*types.Var)
+				if obj == nil || obj.IsField() || obj.Pos() < fnBody.Pos() || obj.Pos() > fnBody.End() {
+					return false
+				}
+				var def *ast.AssignStmt
+				nDefs := 0
+				ast.Inspect(fnBody, func(m ast.Node) bool {
+					switch x := m.(type) {
+					case *ast.AssignStmt:
+						for _, l := range x.Lhs {
+							if lid, ok := l.(*ast.Ident); ok && pk.TypesInfo.ObjectOf(lid) == types.Object(obj) {
+								nDefs++
+								def = x
+							}
+						}
+					case *ast.UnaryExpr:
+						if x.Op == token.AND {
+							if lid, ok := ast.Unparen(x.X).(*ast.Ident); ok && pk.TypesInfo.Uses[lid] == types.Object(obj) {
+								nDefs += 2 // address taken: not a plain local
+							}
+						}
+					}
+					return true
+				})
+				if nDefs != 1 || def == nil || len(def.Lhs) != 1 || len(def.Rhs) != 1 || accessPath(pk, def.Rhs[0]) != path {
+					return false
+				}
+				// no store to the path on the way from the load to the test (a way that passes the load again has
+				// refreshed the local)
+				stale := false
+				for _, b := range cf.g.Blocks {
+					for _, n := range b.Nodes {
+						if n == ast.Node(def) || !storesPath(n) {
+							continue
+						}
+						if cf.reachesAvoiding(def, n, nil) && cf.reachesAvoiding(n, cond, []ast.Node{def}) {
+							stale = true
+						}
+					}
+				}
+				return !stale
+			}
 			est := func(cond ast.Expr, trueEdge bool) bool {
 				if trueEdge {
-					return isPathNilCmp(cond, token.NEQ)
+					return isPathNilCmp(cond, token.NEQ) || aliasNilCmp(cond, token.NEQ)
 				}
-				return isPathNilCmp(cond, token.EQL)
+				return isPathNilCmp(cond, token.EQL) || aliasNilCmp(cond, token.EQL)
 			}
 			kills := func(n ast.Node) bool {
 				killed := false
